@@ -52,8 +52,8 @@ fn oracle(c: &Case, acc: &mut Acc) -> CaseResult {
     let name = spec.name_string();
     let oneway = spec.pattern().is_oneway();
     let pair = drive_to(&spec, spec.n_msgs())?;
-    let mut ti = pair.i.into_transport_mode().map_err(|x| Fail::new(e(&x)))?;
-    let mut tr = pair.r.into_transport_mode().map_err(|x| Fail::new(e(&x)))?;
+    let mut ti = pair.i.into_transport_mode().map_err(|x| Fail::setup(e(&x)))?;
+    let mut tr = pair.r.into_transport_mode().map_err(|x| Fail::setup(e(&x)))?;
     // send K messages per direction
     let k = c.k as usize;
     let mut sent: [Vec<(Vec<u8>, Vec<u8>)>; 2] = [vec![], vec![]];
@@ -64,7 +64,7 @@ fn oracle(c: &Case, acc: &mut Acc) -> CaseResult {
         for j in 0..k {
             let payload = expand(c.seed, (d * 100 + j) as u64, 1 + (j * 7) % 23);
             let w = if d == 0 { &mut ti } else { &mut tr };
-            let m = t_write(w, &payload, payload.len() + 16).map_err(|x| Fail::new(format!("{name}: write: {}", e(&x))))?;
+            let m = t_write(w, &payload, payload.len() + 16).map_err(|x| Fail::setup(format!("{name}: write: {}", e(&x))))?;
             sent[d].push((payload, m));
         }
     }
